@@ -484,7 +484,7 @@ def run(ctx: Ctx) -> None:
         return pool.submit(run_tlc, module, cfg, ctx.scratch / name, **kw)
 
     # ---- 1. laws on the whole universe + emission (spec -> code): configurations ----------------
-    opaque = dict(nleaf=3, depth=2, width=3, ocls="{1, 2, 3, 4, 5, 6}",
+    opaque = dict(nleaf=3, depth=2, width=ctx.pick(2, 3), ocls="{1, 2, 3, 4, 5, 6}",
                   kinds='{"list", "tuple", "nt", "set", "fset", "dict", "dict2", "dc"}')
     if ctx.quick:
         # depth 3 over two leaf values; the roots' child LISTS have one slot, two slots are kept
@@ -492,7 +492,7 @@ def run(ctx: Ctx) -> None:
         # (frozen dataclasses stay inside the trees; as ROOTS with a non-init field they all take
         # the same deviation, so the quick tier leaves those 3.8k roots to the thorough tier)
         runs = [("d3_l2_w2_rootlists1", dict(nleaf=2, depth=3, width=2, rootw=1, top=(ALL_KINDS, "{1, 3}"))),
-                ("d2_l3_w3_opaque", opaque)]
+                ("d2_l3_w2_opaque", opaque)]
     else:
         runs = [("d3_l2_w2", dict(nleaf=2, depth=3, width=2)), ("d2_l3_w3_opaque", opaque)]
         # the full 3-leaf, depth-3, width-2 universe, one root kind at a time (memory)
